@@ -50,7 +50,7 @@ def main():
         rec['demo_patched_tail'] = r.stdout.decode()[-300:]
         for cid in ids:
             t0 = time.time()
-            r = sh('cd /verif && VERIF_REPO=%s ./check %s quick' % (wt, cid))
+            r = sh('cd %s && VERIF_REPO=%s ./check %s quick' % (os.environ.get('VERIF_DIR', '/verif'), wt, cid))
             out = r.stdout.decode()
             viol = [l for l in out.splitlines() if l.startswith('VIOLATION')]
             first = ''
